@@ -247,6 +247,9 @@ def render(tokens, acol, arow, dcol, drow):
             _, c, r, ac, ar = t
             col = acol + c + (0 if ac else dcol)
             row = arow + r + (0 if ar else drow)
+            if col < 1 or col > 16384 or row < 1 or row > 1048576:
+                out += "#REF!"
+                continue
             out += "%s%s%s%d" % ("$" if ac else "", col_letters(col), "$" if ar else "", row)
         else:
             out += t
@@ -303,6 +306,44 @@ def gen_shared(i):
 
 
 N_SHARED = len(TEMPLATES) * len(ANCHORS) * len(SHAPES) * 2
+
+# shared blocks whose master is NOT the left-most cell of the block (children to its left in later rows) and
+# blocks touching the grid edge: some children leave the sheet (#REF!) and later children come back
+EDGE_CASES = [
+    # (name, master col,row, block cols (lo,hi), rows (lo,hi), tokens)
+    ("master-not-leftmost-left-edge", 2, 1, (1, 2), (1, 3), [R(-1, 0), "*2"]),
+    ("master-not-leftmost-abs", 3, 2, (2, 4), (2, 4), [R(-2, 0), "+", R(0, 0, True, True)]),
+    ("right-edge", 16383, 8, (16383, 16384), (8, 10), [R(1, 0), "+1"]),
+    ("bottom-edge", 2, 1048575, (2, 3), (1048575, 1048576), [R(0, 1), "&", '"x"']),
+    # (a range with only ONE corner off the sheet is not enumerated: whether it reads #REF! as a whole or per corner
+    #  is not pinned by the statement)
+]
+
+
+def gen_shared_edge(i):
+    name, mcol, mrow, (clo, chi), (rlo, rhi), tokens = EDGE_CASES[i]
+    tags = ["shared", "shared-edge", "edge:" + name]
+    cells = {}
+    rows = ""
+    rng = "%s%d:%s%d" % (col_letters(clo), rlo, col_letters(chi), rhi)
+    for row in range(rlo, rhi + 1):
+        xs = ""
+        for col in range(clo, chi + 1):
+            if row == mrow and col < mcol:
+                continue  # cells before the master in its own row are not part of the group
+            ref = "%s%d" % (col_letters(col), row)
+            ftxt = render(tokens, mcol, mrow, col - mcol, row - mrow)
+            val = (row - rlo) * 10 + (col - clo)
+            if row == mrow and col == mcol:
+                xs += '<c r="%s"><f t="shared" ref="%s" si="0">%s</f><v>%d</v></c>' % (ref, rng, esc(ftxt), val)
+            else:
+                xs += '<c r="%s"><f t="shared" si="0"/><v>%d</v></c>' % (ref, val)
+            cells[ckey(col, row)] = {"kind": "n", "value": str(val), "bits": bits(val), "formula": ftxt, "shared_child": not (row == mrow and col == mcol)}
+        rows += '<row r="%d">%s</row>' % (row, xs)
+    p = Pkg()
+    p.sheets.append(("Sheet1", sheet_xml(rows), None, None))
+    intent = {"sheets": [{"name": "Sheet1", "cells": cells, "merges": [], "links": {}}], "defined_names": []}
+    return p.build(), intent, tags
 
 # ------------------------------------------------------------------------------------------------
 # family attr
@@ -517,7 +558,7 @@ def gen_style(i):
     return p.build(), intent, tags
 
 
-FAMILIES = [("enc", len(PAYLOADS), gen_enc), ("shared", N_SHARED, gen_shared), ("attr", N_ATTR, gen_attr), ("opt", len(OPT_CASES), gen_opt), ("style", len(STYLE_CASES), gen_style)]
+FAMILIES = [("enc", len(PAYLOADS), gen_enc), ("shared", N_SHARED, gen_shared), ("shared-edge", len(EDGE_CASES), gen_shared_edge), ("attr", N_ATTR, gen_attr), ("opt", len(OPT_CASES), gen_opt), ("style", len(STYLE_CASES), gen_style)]
 
 
 def total():
